@@ -184,8 +184,34 @@ class Contract(object):
         self.properties.update(ids)
         return self
 
+    def scope(self, obligation_prefix, *props):
+        """Obligations of this contract whose name (after the '/') starts with the prefix are
+        reported only under the given properties (a contract shared by several properties may
+        carry clauses that belong to one of them)."""
+        if not hasattr(self, 'scopes_'):
+            self.scopes_ = {}
+        self.scopes_[obligation_prefix] = set(props)
+        return self
+
+    def columns(self, **kinds):
+        """Kinds of the columns of every stored object met while proving this contract (e.g.
+        bounded concrete-spine lists for the multivalued attribute collections)."""
+        self.column_kinds = dict(kinds)
+        return self
+
 
 REGISTRY = {}
+
+
+def in_scope(obligation, prop):
+    key, _, rest = obligation.partition('/')
+    c = REGISTRY.get(key)
+    if c is None:
+        return True
+    for pre, props in getattr(c, 'scopes_', {}).items():
+        if rest.startswith(pre) and prop not in props:
+            return False
+    return True
 
 
 def contract(qualname, variant=None):
